@@ -58,7 +58,7 @@ def value_of_kind(rng, kind, j):
         return {'np': rng.choice([-1.5, 0.5, 2.0, 3.25]), 'dt': rng.choice(['float64', 'float32', 'int64'])} \
             if rng.random() < 0.8 else {'np': 2, 'dt': 'int64'}
     if kind == 'zeros':
-        return 0 if rng.random() < 0.6 else rng.choice([0.0, 1, -2])
+        return 0 if rng.random() < 0.6 else rng.choice([{'f': 0.0}, 1, -2])
     if kind == 'negint':
         return rng.choice([-7, -3, -1])
     if kind == 'complex':
@@ -70,6 +70,10 @@ def fill(rng, shape, kind):
     """Instantiate an operand shape (a recipe without values) with coefficients of one kind."""
     r = copy.deepcopy(shape)
     k = r['k']
+    if k == 'call0':
+        return {'k': 'call0', 'of': fill(rng, r['of'], kind)}
+    if k == 'list':
+        return {'k': 'list', 'of': [fill(rng, x, kind) for x in r['of']], 'tuple': r.get('tuple', False)}
     n = r.pop('n', None)
     if k == 'num':
         kk = kind if kind in ('int', 'float', 'Fraction', 'sympy', 'complex', 'bool', 'npscalar', 'zeros', 'negint') else 'float'
@@ -169,10 +173,17 @@ def gen_trace10(rng, tier='quick', crit_names=()):
                 form = 'infix'
                 if shapes[1]['k'] == 'num':
                     shapes[1] = gen_shape(rng, pool, allow_num=False)
+            u2 = rng.random()
+            if u2 < 0.06 and shapes[1]['k'] not in ('num',):
+                shapes[1] = {'k': 'call0', 'of': shapes[1]}
+                form = 'alg'
+            elif u2 < 0.12 and shapes[1]['k'] not in ('num',):
+                shapes[1] = {'k': 'list', 'of': [shapes[1], gen_shape(rng, pool, allow_num=False)], 'tuple': rng.random() < 0.5}
+                form = 'alg'
             d0 = {'alg': ai, 'kind': 'bin', 'op': name, 'form': form, 'shapes': shapes}
             descs.append(d0)
             for kind, iname, idx in INNER.get(name, []):
-                if rng.random() < 0.5 and all(shapes[j]['k'] != 'num' for j in idx):
+                if rng.random() < 0.5 and all(shapes[j]['k'] not in ('num', 'call0', 'list') for j in idx):
                     descs.append({'alg': ai, 'kind': kind, 'op': iname, 'form': 'method',
                                   'shapes': [shapes[j] for j in idx]})
         elif u < 0.72:
@@ -232,8 +243,15 @@ def gen_trace10(rng, tier='quick', crit_names=()):
                 descs.append(dsc)
     for dsc in descs:
         if not sympy_ok(dsc, d):
-            dsc['shapes'] = [({'k': 'kv', 'keys': sh['keys'], 'n': len(sh['keys'])} if sh['k'] == 'sym' else sh)
-                             for sh in dsc['shapes']]
+            def nosym(sh):
+                if sh['k'] == 'sym':
+                    return {'k': 'kv', 'keys': sh['keys'], 'n': len(sh['keys'])}
+                if sh['k'] == 'call0':
+                    return {'k': 'call0', 'of': nosym(sh['of'])}
+                if sh['k'] == 'list':
+                    return dict(sh, of=[nosym(x) for x in sh['of']])
+                return sh
+            dsc['shapes'] = [nosym(sh) for sh in dsc['shapes']]
     n_ops = rng.randint(15, 60 if tier == 'quick' else 150)
     kinds_cycle = rng.sample(KINDS, rng.randint(3, len(KINDS)))
     prog = []
